@@ -394,10 +394,14 @@ func (p *Policy) sanitize(r io.Reader, w io.Writer) error {
 			switch normaliseElementName(token.Data) {
 			case `script`:
 				if !p.allowUnsafe {
+					// The slash does not close a script or style element, the
+					// tokenizer hands over what follows as its raw content
+					mostRecentlyStartedToken = `script`
 					continue
 				}
 			case `style`:
 				if !p.allowUnsafe {
+					mostRecentlyStartedToken = `style`
 					continue
 				}
 			}
